@@ -39,7 +39,8 @@ def newctx(path):
 
 # title universe: (stored title without prefix, namespace id)
 PAGES = [("Foo", 10), ("IPAchar", 10), ("foo bar", 828), ("Foo", 0), ("lower", 10), ("Lower", 10), ("ru:noun", 10),
-         ("ÿ-box", 10), ("Ÿ-box", 10)]          # upper-case form with the higher code point
+         ("ÿ-box", 10), ("Ÿ-box", 10),          # upper-case form with the higher code point
+         ("e\u0301x", 10)]                      # stored in decomposed form: looked up exactly as stored
 BODIES = ["b1", "b2 with  spaces\n", ""]
 
 
